@@ -2,7 +2,7 @@
 From SV Require Import Base.Prelude Base.Bytes Model.Ring Model.Replicas Model.Plan Model.Shard Model.Route.
 From SV Require Model.Murmur Model.PartKey Model.Tablets.
 From SV Require Import Proofs.Ring_proofs Proofs.Replicas_proofs Proofs.Plan_proofs Proofs.Shard_proofs.
-From SV Require Proofs.Tablets_proofs.
+From SV Require Proofs.Tablets_proofs Proofs.PartKey_proofs.
 From Coq Require Import Permutation.
 Open Scope Z_scope.
 
@@ -519,7 +519,7 @@ Lemma computed_shard_spec p t : computed_shard p t = spec_owner_shard p t.
 Proof. unfold computed_shard, spec_owner_shard. destruct (pool_sharder p) as [[nr msb]|]; [apply shard_of_spec|reflexivity]. Qed.
 
 Lemma ring_source_ok cl k t s :
-  sorted_strict (c_ring cl) -> nts_keys_ok s ->
+  sorted_weak (c_ring cl) -> nts_keys_ok s ->
   Tablets.find_table (c_tablets cl) k = None ->
   forall c x,
     (In x (src_iter (ring_source cl t s) c) <->
@@ -579,7 +579,8 @@ Definition keys_ok (cl : cluster) : Prop :=
   forall k s, ks_lookup (c_keyspaces cl) k = Some s -> nts_keys_ok s.
 
 Theorem route_ok_sound cl cfg st values obs :
-  sorted_strict (c_ring cl) -> keys_ok cl -> tablets_coherent cl ->
+  sorted_weak (c_ring cl) -> keys_ok cl ->
+  ((exists k tt, st_table st = Some k /\ Tablets.find_table (c_tablets cl) k = Some tt) -> tablets_coherent cl) ->
   route_ok cl cfg st values obs = true -> route_prop cl cfg st values obs.
 Proof.
   intros Hs Hk Hco Hacc k t s Hst Htok Hta Hks rq Hrq own Hex. subst own.
@@ -590,6 +591,953 @@ Proof.
   { unfold token_strategy. rewrite Hta, Hrt, Hrk, Hst. cbn [option_map fst]. now rewrite Hks. }
   unfold route_source in Hacc. rewrite Hts, Hst in Hacc.
   destruct (Tablets.find_table (c_tablets cl) k) as [tt|] eqn:Eft.
-  - exact (accept_obs_sound cl cfg rq _ (owners cl k t s) (tablet_source_ok cl k t s tt Hco Eft) obs Hacc Hex).
+  - assert (Hco' : tablets_coherent cl) by (apply Hco; exists k, tt; tauto).
+    exact (accept_obs_sound cl cfg rq _ (owners cl k t s) (tablet_source_ok cl k t s tt Hco' Eft) obs Hacc Hex).
   - exact (accept_obs_sound cl cfg rq _ (owners cl k t s) (ring_source_ok cl k t s Hs (Hk _ _ Hks) Eft) obs Hacc Hex).
+Qed.
+
+(* ====================================================================================== *)
+(* 3. the model's first attempt is accepted, for every oracle                               *)
+(* ====================================================================================== *)
+
+Definition shuf_ok (shufp : nat -> list sreplica -> list sreplica) : Prop :=
+  forall site l, Permutation (shufp site l) l.
+
+Lemma dedup_aux_incl kept l x : In x (dedup_aux kept l) -> In x l.
+Proof.
+  revert kept. induction l as [|y r IH]; intros kept; cbn [dedup_aux]; [intros []|].
+  destruct (existsb (target_cmp y) kept).
+  - intros H. right. now apply IH in H.
+  - intros [<-|H]; [now left|right; now apply IH in H].
+Qed.
+Lemma dedup_incl l x : In x (dedup l) -> In x l.
+Proof. apply dedup_aux_incl. Qed.
+Lemma dedup_cons x l : dedup (x :: l) = x :: dedup_aux [x] l.
+Proof. reflexivity. Qed.
+Lemma dedup_nil_inv l : dedup l = [] -> l = [].
+Proof. destruct l; [reflexivity|rewrite dedup_cons; discriminate]. Qed.
+
+Lemma first_nonempty_prefix {A} (l : list (list A)) : exists r, concat l = first_nonempty l ++ r.
+Proof.
+  induction l as [|[|x v] l IH]; cbn [concat first_nonempty app].
+  - now exists []. - exact IH. - exists (concat l). reflexivity.
+Qed.
+
+Lemma first_nonempty_In {A} (l : list (list A)) x : In x (first_nonempty l) -> exists v, In v l /\ In x v.
+Proof.
+  induction l as [|[|y v] l IH]; cbn [first_nonempty]; [intros []| |].
+  - intros H. destruct (IH H) as (v & Hv & Hx). exists v. split; [now right|assumption].
+  - intros H. exists (y :: v). split; [now left|assumption].
+Qed.
+
+Lemma list_case {A} (l : list A) : l = [] \/ exists x r, l = x :: r.
+Proof. destruct l as [|x r]; [now left|right; eauto]. Qed.
+Lemma first_nonempty_cons_nil {A} (l : list (list A)) : first_nonempty ([] :: l) = first_nonempty l.
+Proof. reflexivity. Qed.
+Lemma first_nonempty_single {A} (v : list A) : first_nonempty [v] = v.
+Proof. destruct v; reflexivity. Qed.
+Lemma first_nonempty_cons_ne {A} (v : list A) l : v <> [] -> first_nonempty (v :: l) = v.
+Proof. destruct v; [congruence|reflexivity]. Qed.
+
+Definition cands_of (rackf : N -> option N) (en co : N -> bool) (s : rsource) (lwt : bool) (c : crit) : list sreplica :=
+  g_filtered rackf en co s c lwt.
+
+Section ModelAccepted.
+  Variables (cl : cluster) (cfg : exec_cfg) (rq : request).
+  Variables (cho : nat -> nat -> nat) (shufp : nat -> list sreplica -> list sreplica).
+  Hypothesis Hcho : cho_ok cho.
+  Hypothesis Hshuf : shuf_ok shufp.
+  Hypothesis Hwf : forall n, pool_wf (c_pool cl n).
+  Hypothesis Hen : forall n, c_enabled cl n = false -> c_pool cl n = PoolDown.
+
+  Let pol := ex_pol cfg.
+  Let dcf := c_dcf cl.
+  Let rackf := c_rackf cl.
+  Let g := c_ring cl.
+  Let en := c_enabled cl.
+  Let co := c_connected cl.
+  Let al := alive en co.
+  Let ln := local_nodes dcf g pol rq.
+  Let an := all_nodes g.
+
+  (* ---- a live node always yields a connection, a dead one never ------------------------- *)
+  Lemma alive_connection n shard : al n = true ->
+    exists c, node_connection cl cho n shard = Some c /\ In c (pool_conns (c_pool cl n)) /\
+      (pool_sharder (c_pool cl n) <> None -> pool_has_shard (c_pool cl n) (shard_u16 shard) = true ->
+       conn_shard c = shard_u16 shard).
+  Proof.
+    unfold al, alive, en, co, c_connected. intros H. apply andb_true_iff in H. destruct H as [He Hc].
+    unfold node_connection. rewrite He.
+    apply connection_for_shard_spec; [assumption|apply Hwf|].
+    intros E. rewrite E in Hc. discriminate.
+  Qed.
+
+  Lemma dead_connection n shard : al n = false -> node_connection cl cho n shard = None.
+  Proof.
+    unfold al, alive, en, co, c_connected, node_connection. intros H.
+    destruct (c_enabled cl n) eqn:He; [|reflexivity]. cbn [andb] in H.
+    destruct (c_pool cl n); [reflexivity|discriminate|discriminate].
+  Qed.
+
+  Lemma accept_shard_conn n want c : In c (pool_conns (c_pool cl n)) ->
+    (forall w, want = Some w -> pool_sharder (c_pool cl n) <> None ->
+       pool_has_shard (c_pool cl n) (shard_u16 w) = true -> conn_shard c = shard_u16 w) ->
+    accept_shard cl n want (conn_shard c) = true.
+  Proof.
+    intros Hin Hw. unfold accept_shard.
+    assert (Hhas : pool_has_shard (c_pool cl n) (conn_shard c) = true)
+      by (apply pool_has_shard_spec; exists c; tauto).
+    destruct (pool_sharder (c_pool cl n)) as [shd|] eqn:Es; [|assumption].
+    destruct want as [w|]; [|assumption].
+    destruct (pool_has_shard (c_pool cl n) (shard_u16 w)) eqn:Eh; [|assumption].
+    apply N.eqb_eq. apply Hw; [reflexivity|congruence|assumption].
+  Qed.
+
+  (* ---- the node part of the plan -------------------------------------------------------- *)
+  Definition rack_pred (n : N) : bool :=
+    match crit_rack pol rq with Some c => al n && crit_ok rackf c n | None => false end.
+  Let g1 := match crit_rack pol rq with Some c => filter (fun n => al n && crit_ok rackf c n) ln | None => [] end.
+  Let g2 := filter al ln.
+  Let g3 := if failover_possible pol rq then filter al an else [].
+
+  Lemma node_cands_eq : node_cands cl cfg rq = first_nonempty [g1; g2; g3].
+  Proof. reflexivity. Qed.
+
+  Lemma filter_nil_iff {A} (p : A -> bool) l : filter p l = [] <-> forall x, In x l -> p x = false.
+  Proof.
+    split.
+    - intros H x Hx. destruct (p x) eqn:E; [|reflexivity].
+      assert (In x (filter p l)) by (apply filter_In; tauto). rewrite H in H0. destruct H0.
+    - intros H. induction l as [|y r IH]; [reflexivity|]. cbn. rewrite (H y) by now left.
+      apply IH. intros x Hx. apply H. now right.
+  Qed.
+
+  Lemma pick_node_filter site nodes pred :
+    match pick_node cho site nodes pred with
+    | Some n => In n (filter pred nodes)
+    | None => filter pred nodes = []
+    end.
+  Proof.
+    pose proof (pick_node_spec cho site nodes pred) as H.
+    destruct (pick_node cho site nodes pred) as [n|].
+    - apply filter_In. exact H.
+    - now apply filter_nil_iff.
+  Qed.
+
+  (* pick()'s node part: a node of the first live group when there is one; in any case a node of
+     the permitted set that is enabled *)
+  Lemma pick_nodes_part_spec :
+    match pick_nodes_part dcf rackf g en co pol rq cho with
+    | Some (n, sh) =>
+        sh = None /\
+        match node_cands cl cfg rq with
+        | [] => al n = false
+        | l => In n l
+        end
+    | None => node_cands cl cfg rq = []
+    end.
+  Proof.
+    rewrite node_cands_eq. unfold pick_nodes_part, node_steps. cbn [first_node].
+    fold ln an al. unfold g1, g2, g3.
+    (* step 1 *)
+    destruct (crit_rack pol rq) as [c|] eqn:Ecr.
+    - pose proof (pick_node_filter 24 ln (fun n => al n && crit_ok rackf c n)) as H1.
+      destruct (pick_node cho 24 ln _) as [n|].
+      + split; [reflexivity|]. cbn [first_nonempty].
+        destruct (filter _ ln) as [|y r]; [destruct H1|exact H1].
+      + rewrite H1. cbn [first_nonempty]. clear H1.
+        pose proof (pick_node_filter 25 ln al) as H2.
+        destruct (pick_node cho 25 ln al) as [n|].
+        * split; [reflexivity|]. destruct (filter al ln) as [|y r]; [destruct H2|exact H2].
+        * rewrite H2. cbn [first_nonempty].
+          destruct (failover_possible pol rq).
+          -- pose proof (pick_node_filter 26 an al) as H3.
+             destruct (pick_node cho 26 an al) as [n|].
+             ++ split; [reflexivity|]. destruct (filter al an) as [|y r]; [destruct H3|exact H3].
+             ++ rewrite H3. cbn [first_nonempty].
+                pose proof (pick_node_spec cho 27 ln en) as H4.
+                destruct (pick_node cho 27 ln en) as [n|].
+                ** split; [reflexivity|]. apply filter_nil_iff with (x := n) in H3; [assumption|].
+                   destruct H4 as [H4 _].
+                   apply (local_nodes_ok dcf rackf g en co (fun _ => 0%N)) in H4. apply H4.
+                ** pose proof (pick_node_spec cho 28 an en) as H5.
+                   destruct (pick_node cho 28 an en) as [n|]; [|reflexivity].
+                   split; [reflexivity|]. apply filter_nil_iff with (x := n) in H3; [assumption|apply H5].
+          -- cbn [first_nonempty].
+             pose proof (pick_node_spec cho 27 ln en) as H4.
+             destruct (pick_node cho 27 ln en) as [n|]; [|reflexivity].
+             split; [reflexivity|]. destruct H4 as [H4 _].
+             now apply filter_nil_iff with (x := n) in H2.
+    - cbn [first_nonempty].
+      pose proof (pick_node_filter 25 ln al) as H2.
+      destruct (pick_node cho 25 ln al) as [n|] eqn:E25.
+      + split; [reflexivity|]. destruct (filter al ln) as [|y r]; [destruct H2|exact H2].
+      + rewrite H2. cbn [first_nonempty].
+        destruct (failover_possible pol rq).
+        * pose proof (pick_node_filter 26 an al) as H3.
+          destruct (pick_node cho 26 an al) as [n|].
+          -- split; [reflexivity|]. destruct (filter al an) as [|y r]; [destruct H3|exact H3].
+          -- rewrite H3. cbn [first_nonempty].
+             pose proof (pick_node_spec cho 27 ln en) as H4.
+             destruct (pick_node cho 27 ln en) as [n|].
+             ++ split; [reflexivity|]. apply filter_nil_iff with (x := n) in H3; [assumption|].
+                destruct H4 as [H4 _].
+                apply (local_nodes_ok dcf rackf g en co (fun _ => 0%N)) in H4. apply H4.
+             ++ pose proof (pick_node_spec cho 28 an en) as H5.
+                destruct (pick_node cho 28 an en) as [n|]; [|reflexivity].
+                split; [reflexivity|]. apply filter_nil_iff with (x := n) in H3; [assumption|apply H5].
+        * cbn [first_nonempty].
+          pose proof (pick_node_spec cho 27 ln en) as H4.
+          destruct (pick_node cho 27 ln en) as [n|]; [|reflexivity].
+          split; [reflexivity|]. destruct H4 as [H4 _].
+          now apply filter_nil_iff with (x := n) in H2.
+  Qed.
+
+  (* ---- fallback()'s node part ------------------------------------------------------------ *)
+  Lemma round_robin_nil site nodes pred : round_robin cho site nodes pred = [] <-> filter pred nodes = [].
+  Proof.
+    rewrite !filter_nil_iff. unfold round_robin. rewrite filter_nil_iff. split; intros H x Hx; apply H.
+    - revert Hx. apply Permutation_in, Permutation_sym, rotate_perm.
+    - revert Hx. apply Permutation_in, rotate_perm.
+  Qed.
+  Lemma round_robin_filter site nodes pred n : In n (round_robin cho site nodes pred) <-> In n (filter pred nodes).
+  Proof. rewrite round_robin_In, filter_In. tauto. Qed.
+
+  Let rr4 := match crit_rack pol rq with
+             | Some c => round_robin cho 4 ln (fun n => al n && crit_ok rackf c n) | None => [] end.
+  Let rr5 := round_robin cho 5 ln al.
+  Let rr6 := if failover_possible pol rq then round_robin cho 6 an al else [].
+  Let down_part := filter en ln ++ (if failover_possible pol rq then filter en an else []).
+
+  Lemma fb_nodes_eq : fb_nodes dcf rackf g en co pol rq cho =
+    map (fun n => (n, None)) (rr4 ++ rr5 ++ rr6 ++ down_part).
+  Proof. reflexivity. Qed.
+
+  Lemma rr_groups : (rr4 = [] <-> g1 = []) /\ (rr5 = [] <-> g2 = []) /\ (rr6 = [] <-> g3 = []) /\
+    (forall n, In n rr4 -> In n g1) /\ (forall n, In n rr5 -> In n g2) /\ (forall n, In n rr6 -> In n g3).
+  Proof.
+    unfold rr4, rr5, rr6, g1, g2, g3.
+    destruct (crit_rack pol rq); destruct (failover_possible pol rq);
+      repeat split; try tauto; try apply round_robin_nil; try (intros n; apply round_robin_filter).
+  Qed.
+
+  Lemma down_part_dead n : node_cands cl cfg rq = [] -> In n (rr4 ++ rr5 ++ rr6 ++ down_part) -> al n = false.
+  Proof.
+    rewrite node_cands_eq. intros Hnc Hn.
+    pose proof (first_nonempty_nil _ Hnc) as Hall.
+    assert (H1 : g1 = []) by (apply Hall; cbn; tauto).
+    assert (H2 : g2 = []) by (apply Hall; cbn; tauto).
+    assert (H3 : g3 = []) by (apply Hall; cbn; tauto).
+    destruct rr_groups as (_ & _ & _ & I1 & I2 & I3).
+    apply in_app_or in Hn. destruct Hn as [Hn|Hn]; [apply I1 in Hn; rewrite H1 in Hn; destruct Hn|].
+    apply in_app_or in Hn. destruct Hn as [Hn|Hn]; [apply I2 in Hn; rewrite H2 in Hn; destruct Hn|].
+    apply in_app_or in Hn. destruct Hn as [Hn|Hn]; [apply I3 in Hn; rewrite H3 in Hn; destruct Hn|].
+    unfold down_part in Hn. apply in_app_or in Hn. destruct Hn as [Hn|Hn].
+    - apply filter_In in Hn. destruct Hn as [Hn _]. unfold g2 in H2.
+      now apply filter_nil_iff with (x := n) in H2.
+    - unfold g3 in H3. destruct (failover_possible pol rq); [|destruct Hn].
+      apply filter_In in Hn. destruct Hn as [Hn _]. now apply filter_nil_iff with (x := n) in H3.
+  Qed.
+
+  Lemma fb_nodes_head x rest : node_cands cl cfg rq = x :: rest ->
+    exists n tl, fb_nodes dcf rackf g en co pol rq cho = (n, None) :: tl /\ In n (x :: rest).
+  Proof.
+    rewrite node_cands_eq, fb_nodes_eq. intros Hnc.
+    destruct rr_groups as (E1 & E2 & E3 & I1 & I2 & I3).
+    destruct (list_case rr4) as [R4|(a & r4 & R4)].
+    - rewrite (proj1 E1 R4), first_nonempty_cons_nil in Hnc.
+      destruct (list_case rr5) as [R5|(b & r5 & R5)].
+      + rewrite (proj1 E2 R5), first_nonempty_cons_nil, first_nonempty_single in Hnc.
+        destruct (list_case rr6) as [R6|(c & r6 & R6)].
+        * rewrite (proj1 E3 R6) in Hnc. discriminate.
+        * rewrite R4, R5, R6. cbn [app map]. exists c. eexists. split; [reflexivity|].
+          rewrite <- Hnc. apply I3. rewrite R6. now left.
+      + rewrite first_nonempty_cons_ne in Hnc by (intros G; apply E2 in G; congruence).
+        rewrite R4, R5. cbn [app map]. exists b. eexists. split; [reflexivity|].
+        rewrite <- Hnc. apply I2. rewrite R5. now left.
+    - rewrite first_nonempty_cons_ne in Hnc by (intros G; apply E1 in G; congruence).
+      rewrite R4. cbn [app map]. exists a. eexists. split; [reflexivity|].
+      rewrite <- Hnc. apply I1. rewrite R4. now left.
+  Qed.
+
+  (* ---- the replica part ------------------------------------------------------------------ *)
+  Section WithSource.
+    Variable s : rsource.
+    Hypothesis Hord : forall c x, In x (src_ordered s c) <-> In x (src_iter s c).
+
+    Local Notation cands := (cands_of rackf en co s (rq_lwt rq)).
+    Local Notation pick_replica := (g_pick_replica rackf en co rq cho).
+
+    Lemma cands_alive c x : In x (cands c) -> al (fst x) = true.
+    Proof.
+      unfold cands_of, g_filtered, sr_ok. rewrite filter_In. intros [_ H]. apply andb_true_iff in H. apply H.
+    Qed.
+
+    Lemma filtered_views c : g_filtered rackf en co s c true = [] <-> g_filtered rackf en co s c false = [].
+    Proof.
+      unfold g_filtered. rewrite !filter_nil_iff. split; intros H x Hx; apply H; now apply Hord.
+    Qed.
+
+    Lemma pick_replica_spec site c : c <> CAny \/ rq_lwt rq = false ->
+      match cands c with
+      | [] => pick_replica site s c = None
+      | x :: rest => exists y, In y (x :: rest) /\ (rq_lwt rq = true -> y = x) /\
+                               pick_replica site s c = Some (GComputed y)
+      end.
+    Proof.
+      intros Hc. unfold cands_of, g_pick_replica. destruct (rq_lwt rq) eqn:El.
+      - destruct c as [|d|d r]; [destruct Hc; congruence| |];
+          (destruct (g_filtered rackf en co s _ true) as [|x rest]; [reflexivity|];
+           exists x; split; [now left|]; split; reflexivity).
+      - destruct (nth_error (src_iter s c) (cho site (List.length (src_iter s c)))) as [happy|] eqn:Eh.
+        + destruct (sr_ok rackf en co c happy) eqn:Eok.
+          * assert (Hin : In happy (g_filtered rackf en co s c false)).
+            { unfold g_filtered. apply filter_In. split; [now apply nth_error_In in Eh|assumption]. }
+            destruct (g_filtered rackf en co s c false) as [|x rest]; [destruct Hin|].
+            exists happy. split; [assumption|]. split; [discriminate|reflexivity].
+          * destruct (g_filtered rackf en co s c false) as [|x rest] eqn:Ef; [cbn [List.length]; destruct (cho (site + 10) 0); reflexivity|].
+            destruct (nth_error (x :: rest) (cho (site + 10) (List.length (x :: rest)))) as [y|] eqn:Ey.
+            -- exists y. split; [now apply nth_error_In in Ey|]. split; [discriminate|reflexivity].
+            -- apply nth_error_None in Ey. specialize (Hcho (site + 10)%nat (List.length (x :: rest))).
+               cbn [List.length] in *. lia.
+        + assert (Hnil : src_iter s c = []).
+          { apply nth_error_None in Eh. destruct (src_iter s c) as [|z r]; [reflexivity|].
+            specialize (Hcho site (List.length (z :: r))). cbn [List.length] in *. lia. }
+          unfold g_filtered. rewrite Hnil. reflexivity.
+    Qed.
+
+    Definition site_of (c : crit) : nat := match c with CRack _ _ => 21 | CDc _ => 22 | CAny => 23 end.
+    Definition fbsite_of (c : crit) : nat := match c with CRack _ _ => 1 | CDc _ => 2 | CAny => 3 end.
+    Definition steps_of (crits : list crit) : list (option gpicked) :=
+      map (fun c => pick_replica (site_of c) s c) crits.
+
+    Lemma replica_steps_eq k :
+      g_first_picked (g_replica_steps rackf en co pol rq cho s) k = g_first_picked (steps_of (allowed_crits pol rq)) k.
+    Proof.
+      unfold g_replica_steps, steps_of, allowed_crits, crit_rack, crit_local, remote_allowed, failover_possible.
+      destruct (eff_pref pol rq) as [|d|d r]; cbn [pref_dc app map site_of].
+      - reflexivity.
+      - destruct (pol_failover pol); reflexivity.
+      - destruct (pol_failover pol); reflexivity.
+    Qed.
+
+    Lemma fb_replicas_eq :
+      g_fb_replicas rackf en co pol rq (Some s) shufp =
+      map to_target (concat (map (fun c => g_maybe_shuffled rackf en co rq shufp (fbsite_of c) s c) (allowed_crits pol rq))).
+    Proof.
+      unfold g_fb_replicas, allowed_crits, crit_rack, crit_local, remote_allowed, failover_possible.
+      destruct (eff_pref pol rq) as [|d|d r]; cbn [pref_dc app map concat fbsite_of]; rewrite ?app_nil_r.
+      - reflexivity.
+      - destruct (pol_failover pol); cbn [app map concat]; rewrite ?app_nil_r; reflexivity.
+      - destruct (pol_failover pol); cbn [app map concat]; rewrite ?app_nil_r; reflexivity.
+    Qed.
+
+    Lemma allowed_crits_shape : exists l1 l2, allowed_crits pol rq = l1 ++ l2 /\
+      Forall (fun c => c <> CAny) l1 /\ (l2 = [] \/ l2 = [CAny]).
+    Proof.
+      unfold allowed_crits, crit_rack, crit_local, remote_allowed, failover_possible.
+      destruct (eff_pref pol rq) as [|d|d r]; cbn [pref_dc app].
+      - exists [], [CAny]. repeat split; [constructor|now right].
+      - exists [CDc d], (if pol_failover pol then [CAny] else []).
+        repeat split; [repeat constructor; discriminate|destruct (pol_failover pol); tauto].
+      - exists [CRack d r; CDc d], (if pol_failover pol then [CAny] else []).
+        repeat split; [repeat constructor; discriminate|destruct (pol_failover pol); tauto].
+    Qed.
+
+    (* what the chain of pick_replica attempts returns *)
+    Lemma pick_chain l1 l2 k : Forall (fun c => c <> CAny) l1 -> (l2 = [] \/ l2 = [CAny]) ->
+      let r := g_first_picked (steps_of (l1 ++ l2)) k in
+      match first_nonempty (map cands (l1 ++ l2)) with
+      | x :: rest =>
+          (exists y, In y (x :: rest) /\ (rq_lwt rq = true -> y = x) /\ r = Some (to_target y)) \/
+          (rq_lwt rq = true /\ r = None)
+      | [] => r = k \/ r = None
+      end.
+    Proof.
+      intros H1 H2. induction H1 as [|c l1 Hc H1 IH]; cbn [app].
+      - destruct H2 as [->| ->]; cbn [map steps_of first_nonempty g_first_picked site_of]; [now left|].
+        destruct (Bool.bool_dec (rq_lwt rq) true) as [El|El].
+        + (* LWT, unrestricted: the primary replica or nothing *)
+          unfold cands_of, g_pick_replica, g_filtered. rewrite El.
+          destruct (src_ordered s CAny) as [|p rest] eqn:Eo; cbn [filter g_first_picked]; [now left|].
+          unfold sr_ok. cbn [crit_ok]. rewrite andb_true_r. fold al.
+          destruct (al (fst p)) eqn:Ea.
+          * left. exists p. split; [now left|]. split; reflexivity.
+          * destruct (filter _ rest); [now right|right; split; reflexivity].
+        + apply not_true_is_false in El.
+          pose proof (pick_replica_spec 23 CAny (or_intror El)) as Hp.
+          destruct (cands CAny) as [|x rest]; [rewrite Hp; now left|].
+          destruct Hp as (y & Hy & Hl & ->). left. exists y. repeat split; assumption.
+      - cbn [map steps_of first_nonempty g_first_picked]. fold (steps_of (l1 ++ l2)).
+        pose proof (pick_replica_spec (site_of c) c (or_introl Hc)) as Hp.
+        destruct (cands c) as [|x rest].
+        + rewrite Hp. exact IH.
+        + destruct Hp as (y & Hy & Hl & ->). left. exists y. repeat split; assumption.
+    Qed.
+
+    Lemma maybe_shuffled_lwt site c : rq_lwt rq = true ->
+      g_maybe_shuffled rackf en co rq shufp site s c = cands c.
+    Proof. intros El. unfold g_maybe_shuffled, cands_of. now rewrite El. Qed.
+
+    Lemma maybe_shuffled_nil site c : cands c = [] -> g_maybe_shuffled rackf en co rq shufp site s c = [].
+    Proof.
+      unfold g_maybe_shuffled, cands_of. destruct (rq_lwt rq) eqn:El; [trivial|].
+      intros E. rewrite E. apply Permutation_nil, Permutation_sym, Hshuf.
+    Qed.
+
+    (* the plan starts with a live replica of the first criterion that has one *)
+    Lemma plan_head_replica x rest : replica_cands cl cfg rq (Some s) = x :: rest ->
+      exists y tl, In y (x :: rest) /\ (rq_lwt rq = true -> y = x) /\
+        g_plan dcf rackf g en co pol rq (Some s) cho shufp = to_target y :: tl.
+    Proof.
+      unfold replica_cands. fold pol rackf en co. change (fun c => g_filtered rackf en co s c (rq_lwt rq)) with cands. intros Erc.
+      destruct allowed_crits_shape as (l1 & l2 & Ecs & Hl1 & Hl2).
+      pose proof (pick_chain l1 l2 (pick_nodes_part dcf rackf g en co pol rq cho) Hl1 Hl2) as Hch.
+      cbv zeta in Hch. rewrite <- Ecs, Erc in Hch. rewrite <- replica_steps_eq in Hch.
+      unfold g_plan, g_pick.
+      destruct Hch as [(y & Hy & Hl & ->)|[El ->]].
+      - exists y. eexists. repeat split; [assumption|assumption].
+      - unfold g_fallback. rewrite fb_replicas_eq.
+        assert (Hcat : exists r', concat (map (fun c => g_maybe_shuffled rackf en co rq shufp (fbsite_of c) s c)
+                                         (allowed_crits pol rq)) = (x :: rest) ++ r').
+        { rewrite <- Erc.
+          replace (map (fun c => g_maybe_shuffled rackf en co rq shufp (fbsite_of c) s c) (allowed_crits pol rq))
+            with (map cands (allowed_crits pol rq)).
+          - apply first_nonempty_prefix.
+          - apply map_ext. intros c. symmetry. now apply maybe_shuffled_lwt. }
+        destruct Hcat as [r' ->]. cbn [app map]. rewrite dedup_cons.
+        exists x. eexists. split; [now left|]. split; reflexivity.
+    Qed.
+
+    Lemma fb_replicas_nil : replica_cands cl cfg rq (Some s) = [] ->
+      g_fb_replicas rackf en co pol rq (Some s) shufp = [].
+    Proof.
+      unfold replica_cands. fold pol rackf en co. change (fun c => g_filtered rackf en co s c (rq_lwt rq)) with cands. intros Erc. rewrite fb_replicas_eq.
+      pose proof (first_nonempty_nil _ Erc) as Hall.
+      assert (G : forall cs, (forall c, In c cs -> cands c = []) ->
+                concat (map (fun c => g_maybe_shuffled rackf en co rq shufp (fbsite_of c) s c) cs) = []).
+      { induction cs as [|c cs IH]; intros Hcs; [reflexivity|].
+        cbn [map concat]. rewrite maybe_shuffled_nil by (apply Hcs; now left). cbn [app].
+        apply IH. intros c' Hc'. apply Hcs. now right. }
+      rewrite G; [reflexivity|]. intros c Hc. apply Hall. now apply in_map.
+    Qed.
+
+    Lemma pick_no_replica : replica_cands cl cfg rq (Some s) = [] ->
+      g_pick dcf rackf g en co pol rq (Some s) cho = pick_nodes_part dcf rackf g en co pol rq cho \/
+      g_pick dcf rackf g en co pol rq (Some s) cho = None.
+    Proof.
+      unfold replica_cands. fold pol rackf en co. change (fun c => g_filtered rackf en co s c (rq_lwt rq)) with cands. intros Erc.
+      destruct allowed_crits_shape as (l1 & l2 & Ecs & Hl1 & Hl2).
+      pose proof (pick_chain l1 l2 (pick_nodes_part dcf rackf g en co pol rq cho) Hl1 Hl2) as Hch.
+      cbv zeta in Hch. rewrite <- Ecs, Erc in Hch. rewrite <- replica_steps_eq in Hch. exact Hch.
+    Qed.
+  End WithSource.
+
+  (* ---- the target loop of the request fiber ---------------------------------------------- *)
+  Definition obs_of (o : option (N * conn)) : option (N * N) :=
+    option_map (fun nc => (fst nc, conn_shard (snd nc))) o.
+
+  Lemma first_attempt_dead p : (forall x, In x p -> al (fst x) = false) -> first_attempt cl cho p = None.
+  Proof.
+    induction p as [|x p IH]; intros H; [reflexivity|]. cbn [first_attempt].
+    unfold with_random_shard at 1 2. cbn [fst snd]. rewrite dead_connection by (apply H; now left).
+    apply IH. intros y Hy. apply H. now right.
+  Qed.
+
+  Lemma first_attempt_head (x : target) (tl : list target) : al (fst x) = true ->
+    exists c, first_attempt cl cho (x :: tl) = Some (fst x, c) /\ In c (pool_conns (c_pool cl (fst x))) /\
+      (forall w, snd x = Some w -> pool_sharder (c_pool cl (fst x)) <> None ->
+         pool_has_shard (c_pool cl (fst x)) (shard_u16 w) = true -> conn_shard c = shard_u16 w).
+  Proof.
+    intros Ha. cbn [first_attempt]. unfold with_random_shard. cbn [fst snd].
+    destruct (alive_connection (fst x) (match snd x with Some s => s | None =>
+                N.of_nat (cho 30 match pool_sharder (c_pool cl (fst x)) with Some (nr, _) => N.to_nat nr | None => 1%nat end) end) Ha)
+      as (c & Ec & Hin & Hsh).
+    rewrite Ec. exists c. split; [reflexivity|]. split; [assumption|].
+    intros w Hw. rewrite Hw in Hsh. exact Hsh.
+  Qed.
+
+  (* no live replica: the first attempt goes to a live node of the first node group that has one,
+     or nowhere *)
+  Lemma nodes_case src :
+    g_fb_replicas rackf en co pol rq src shufp = [] ->
+    (g_pick dcf rackf g en co pol rq src cho = pick_nodes_part dcf rackf g en co pol rq cho \/
+     g_pick dcf rackf g en co pol rq src cho = None) ->
+    match node_cands cl cfg rq, obs_of (first_attempt cl cho (g_plan dcf rackf g en co pol rq src cho shufp)) with
+    | [], None => True
+    | l, Some (n, sh) => In n l /\ accept_shard cl n None sh = true
+    | _, _ => False
+    end.
+  Proof.
+    intros Hfb Hpick. unfold g_plan, g_fallback. rewrite Hfb. cbn [app].
+    pose proof pick_nodes_part_spec as Hk.
+    destruct (node_cands cl cfg rq) as [|x rest] eqn:Enc.
+    - (* nobody is alive: every element of the plan is skipped *)
+      rewrite first_attempt_dead; [exact I|].
+      assert (Hfbn : forall y, In y (fb_nodes dcf rackf g en co pol rq cho) -> al (fst y) = false).
+      { intros y Hy. rewrite fb_nodes_eq in Hy. apply in_map_iff in Hy. destruct Hy as (n & <- & Hn).
+        cbn [fst]. now apply down_part_dead. }
+      assert (Hded : forall y, In y (dedup (fb_nodes dcf rackf g en co pol rq cho)) -> al (fst y) = false).
+      { intros y Hy. apply Hfbn. now apply dedup_incl. }
+      destruct Hpick as [-> | ->].
+      + destruct (pick_nodes_part dcf rackf g en co pol rq cho) as [[n sh]|].
+        * destruct Hk as [_ Hk]. intros y [<-|Hy]; [exact Hk|]. apply filter_In in Hy. apply Hded, Hy.
+        * destruct (dedup _) as [|f r] eqn:Ed; [intros ? []|].
+          intros y [<-|Hy]; [apply Hded; now left|]. apply filter_In in Hy. apply Hded. right. apply Hy.
+      + destruct (dedup _) as [|f r] eqn:Ed; [intros ? []|].
+        intros y [<-|Hy]; [apply Hded; now left|]. apply filter_In in Hy. apply Hded. right. apply Hy.
+    - assert (Hal : forall n, In n (x :: rest) -> al n = true).
+      { intros n Hn. rewrite <- Enc, node_cands_eq in Hn. apply first_nonempty_In in Hn.
+        destruct Hn as (v & Hv & Hn). unfold g1, g2, g3 in Hv.
+        destruct Hv as [<-|[<-|[<-|[]]]].
+        - destruct (crit_rack pol rq); [|destruct Hn]. apply filter_In in Hn. destruct Hn as [_ Hn].
+          apply andb_true_iff in Hn. apply Hn.
+        - apply filter_In in Hn. apply Hn.
+        - destruct (failover_possible pol rq); [|destruct Hn]. apply filter_In in Hn. apply Hn. }
+      assert (Hhead : exists n (tl : list target), In n (x :: rest) /\
+                match g_pick dcf rackf g en co pol rq src cho with
+                | Some p => p :: filter (fun y => negb (target_eqb y p)) (dedup (fb_nodes dcf rackf g en co pol rq cho))
+                | None => match dedup (fb_nodes dcf rackf g en co pol rq cho) with
+                          | [] => []
+                          | f :: r => f :: filter (fun y => negb (target_eqb y f)) r
+                          end
+                end = @cons target (n, None) tl).
+      { destruct (fb_nodes_head x rest Enc) as (n' & tl' & Efb & Hn').
+        destruct Hpick as [-> | ->].
+        - destruct (pick_nodes_part dcf rackf g en co pol rq cho) as [[n sh]|].
+          + destruct Hk as [-> Hk]. exists n. eexists. split; [exact Hk|reflexivity].
+          + discriminate.
+        - rewrite Efb, dedup_cons. exists n'. eexists. split; [assumption|reflexivity]. }
+      destruct Hhead as (n & tl & Hn & ->).
+      destruct (first_attempt_head (n, None) tl (Hal n Hn)) as (c & -> & Hin & _).
+      cbn [obs_of option_map fst snd]. split; [assumption|].
+      apply accept_shard_conn; [assumption|discriminate].
+  Qed.
+
+  (* THE MODEL IS ACCEPTED: whatever the oracles draw, the (node, shard of the connection) of the
+     model's first attempt passes the acceptor *)
+  Theorem plan_accepted src :
+    (forall s, src = Some s -> forall c x, In x (src_ordered s c) <-> In x (src_iter s c)) ->
+    accept_obs cl cfg rq src
+      (obs_of (first_attempt cl cho (g_plan dcf rackf g en co pol rq src cho shufp))) = true.
+  Proof.
+    intros Hord. unfold accept_obs.
+    destruct (replica_cands cl cfg rq src) as [|x rest] eqn:Erc.
+    - assert (Hn : match node_cands cl cfg rq, obs_of (first_attempt cl cho (g_plan dcf rackf g en co pol rq src cho shufp)) with
+                   | [], None => True
+                   | l, Some (n, sh) => In n l /\ accept_shard cl n None sh = true
+                   | _, _ => False
+                   end).
+      { apply nodes_case.
+        - destruct src as [s|]; [|reflexivity]. apply (fb_replicas_nil s); try assumption; try (apply Hord; reflexivity).
+        - destruct src as [s|]; [|now left]. apply (pick_no_replica s); try assumption; try (apply Hord; reflexivity). }
+      destruct (node_cands cl cfg rq) as [|y l];
+        destruct (obs_of _) as [[n sh]|]; try exact (False_ind _ Hn); try reflexivity.
+      + destruct Hn as [[] _].
+      + destruct Hn as [Hn1 Hn2]. apply andb_true_iff. split; [now apply mem_In|assumption].
+    - destruct src as [s|]; [|discriminate].
+      destruct (plan_head_replica s (Hord s eq_refl) x rest Erc) as (y & tl & Hy & Hl & ->).
+      assert (Ha : al (fst y) = true).
+      { rewrite <- Erc in Hy. unfold replica_cands in Hy. apply first_nonempty_In in Hy.
+        destruct Hy as (v & Hv & Hy). apply in_map_iff in Hv. destruct Hv as (c & <- & _).
+        exact (cands_alive s c y Hy). }
+      destruct (first_attempt_head (to_target y) tl Ha) as (c & -> & Hin & Hsh).
+      cbn [obs_of option_map fst snd to_target] in *.
+      assert (Hacc : accept_shard cl (fst y) (Some (snd y)) (conn_shard c) = true).
+      { apply accept_shard_conn; [assumption|]. intros w [= <-]. now apply Hsh. }
+      destruct (rq_lwt rq) eqn:El.
+      + rewrite <- (Hl eq_refl). rewrite N.eqb_refl. exact Hacc.
+      + apply existsb_exists. exists y. split; [assumption|]. rewrite N.eqb_refl. exact Hacc.
+  Qed.
+End ModelAccepted.
+
+(* ---- for the two concrete kinds of source, and for the whole route ---------------------- *)
+Definition cluster_ok (cl : cluster) : Prop :=
+  (forall n, pool_wf (c_pool cl n)) /\ (forall n, c_enabled cl n = false -> c_pool cl n = PoolDown).
+
+Lemma route_source_views cl pol rq table s :
+  sorted_weak (c_ring cl) -> keys_ok cl ->
+  route_source cl pol rq table = Some s -> forall c x, In x (src_ordered s c) <-> In x (src_iter s c).
+Proof.
+  intros Hs Hk. unfold route_source.
+  destruct (token_strategy (c_keyspaces cl) pol rq) as [[t st]|] eqn:Ets; [|discriminate].
+  destruct table as [k|]; [|discriminate].
+  destruct (Tablets.find_table (c_tablets cl) k) as [tt|] eqn:Eft; intros [= <-] c x.
+  - reflexivity.
+  - assert (Hst : nts_keys_ok st).
+    { unfold token_strategy in Ets. destruct (pol_token_aware pol); [|discriminate].
+      destruct (rq_token rq); [|discriminate]. destruct (rq_ks rq) as [ks|]; [|discriminate].
+      destruct (ks_lookup (c_keyspaces cl) ks) eqn:E; [|discriminate]. injection Ets as _ <-. exact (Hk _ _ E). }
+    cbn [ring_source src_iter src_ordered]. rewrite !in_map_iff.
+    split; intros (n & <- & Hn); exists n; (split; [reflexivity|]); revert Hn;
+      apply Permutation_in; [|apply Permutation_sym]; now apply ordered_perm.
+Qed.
+
+Definition route_obs (cl : cluster) cho shufp cfg st values : result PartKey.c03_error (option (N * N)) :=
+  match route cl cho shufp cfg st values with
+  | Ok o => Ok (obs_of o)
+  | Err e => Err e
+  end.
+
+Theorem route_accepted cl cfg st values cho shufp :
+  cho_ok cho -> shuf_ok shufp -> cluster_ok cl -> sorted_weak (c_ring cl) -> keys_ok cl ->
+  match route_obs cl cho shufp cfg st values with
+  | Ok obs => route_ok cl cfg st values obs = true
+  | Err _ => route_ok cl cfg st values None = true
+  end.
+Proof.
+  intros Hc Hsh [Hwf Hen] Hs Hk. unfold route_obs, route, route_ok.
+  destruct (routing_request st cfg values) as [rq|e]; [|reflexivity].
+  unfold route_plan. apply plan_accepted; try assumption.
+  intros s Es. now apply (route_source_views cl (ex_pol cfg) rq (st_table st)).
+Qed.
+
+(* ====================================================================================== *)
+(* 4. the composition: the property holds of the model's route, for every oracle            *)
+(* ====================================================================================== *)
+Theorem route_model_prop cl cfg st values cho shufp obs :
+  cho_ok cho -> shuf_ok shufp -> cluster_ok cl -> sorted_weak (c_ring cl) -> keys_ok cl ->
+  ((exists k tt, st_table st = Some k /\ Tablets.find_table (c_tablets cl) k = Some tt) -> tablets_coherent cl) ->
+  route_obs cl cho shufp cfg st values = Ok obs -> route_prop cl cfg st values obs.
+Proof.
+  intros Hc Hsh Hcl Hs Hk Hco Hr.
+  pose proof (route_accepted cl cfg st values cho shufp Hc Hsh Hcl Hs Hk) as Ha. rewrite Hr in Ha.
+  now apply route_ok_sound.
+Qed.
+
+Lemma route_obs_inv cl cho shufp cfg st values rq :
+  routing_request st cfg values = Ok rq ->
+  route cl cho shufp cfg st values = Ok (first_attempt cl cho (route_plan cl cho shufp cfg st rq)) /\
+  route_obs cl cho shufp cfg st values = Ok (obs_of (first_attempt cl cho (route_plan cl cho shufp cfg st rq))).
+Proof. intros H. unfold route_obs, route. rewrite H. split; reflexivity. Qed.
+
+Lemma owners_ring cl k t s : Tablets.find_table (c_tablets cl) k = None ->
+  owners cl k t s = map (fun n => (n, spec_owner_shard (c_pool cl n) t))
+                        (spec_replicas (c_dcf cl) (c_rackf cl) (c_ring cl) t s None).
+Proof. intros H. unfold owners. now rewrite H. Qed.
+
+Lemma lookup_tablet_table s k t tb : Tablets.lookup_tablet s k t = Some tb ->
+  exists tt, Tablets.find_table s k = Some tt.
+Proof. unfold Tablets.lookup_tablet. destruct (Tablets.find_table s k) as [tt|]; [eauto|discriminate]. Qed.
+
+Lemma owners_tablet cl k t s tb : Tablets.lookup_tablet (c_tablets cl) k t = Some tb ->
+  owners cl k t s = map (fun r => (Tablets.host (fst r), snd r)) (Tablets.r_all (Tablets.t_reps tb)).
+Proof.
+  intros H. unfold owners. destruct (lookup_tablet_table _ _ _ _ H) as [tt ->].
+  unfold Tablets.lookup. now rewrite H.
+Qed.
+
+(* C12_first_target, in full: a ring table *)
+Theorem first_target_ring cl cfg st values cho shufp k t s rq :
+  cho_ok cho -> shuf_ok shufp -> cluster_ok cl -> sorted_weak (c_ring cl) -> keys_ok cl ->
+  st_table st = Some k -> Tablets.find_table (c_tablets cl) k = None ->
+  PartKey.ps_calculate_token (st_part st) (st_ncols st) (st_wire st) values = Ok (Some t) ->
+  pol_token_aware (ex_pol cfg) = true ->
+  ks_lookup (c_keyspaces cl) (fst k) = Some s ->
+  routing_request st cfg values = Ok rq ->
+  let reps := spec_replicas (c_dcf cl) (c_rackf cl) (c_ring cl) t s None in
+  (exists n, In n reps /\ usable cl (ex_pol cfg) rq n = true) ->
+  exists n c,
+    route cl cho shufp cfg st values = Ok (Some (n, c)) /\
+    In n reps /\ usable cl (ex_pol cfg) rq n = true /\
+    (forall d, pref_dc (eff_pref (ex_pol cfg) rq) = Some d ->
+       (exists m, In m reps /\ c_alive cl m = true /\ in_dc (c_dcf cl) d m = true) ->
+       in_dc (c_dcf cl) d n = true) /\
+    (forall nr msb, pool_sharder (c_pool cl n) = Some (nr, msb) ->
+       pool_has_shard (c_pool cl n) (shard_u16 (spec_shard_of nr msb t)) = true ->
+       conn_shard c = shard_u16 (spec_shard_of nr msb t)).
+Proof.
+  intros Hc Hsh Hcl Hs Hk Hst Hft Htok Hta Hks Hrq reps (n0 & Hn0 & Hu0).
+  destruct (route_obs_inv cl cho shufp cfg st values rq Hrq) as [Er Eo].
+  assert (Hco : (exists k tt, st_table st = Some k /\ Tablets.find_table (c_tablets cl) k = Some tt) -> tablets_coherent cl).
+  { intros (k' & tt & Hk' & Hf). rewrite Hst in Hk'. injection Hk' as <-. congruence. }
+  pose proof (route_model_prop cl cfg st values cho shufp _ Hc Hsh Hcl Hs Hk Hco Eo k t s Hst Htok Hta Hks rq Hrq) as P.
+  cbv zeta in P. rewrite (owners_ring cl k t s Hft) in P.
+  destruct P as (n & sh & r & Eobs & Hr & Hfst & Hu & Hd & Hshard).
+  { exists (n0, spec_owner_shard (c_pool cl n0) t). split; [|assumption].
+    apply in_map_iff. exists n0. tauto. }
+  apply in_map_iff in Hr. destruct Hr as (n' & <- & Hn'). cbn [fst] in Hfst. subst n'.
+  destruct (first_attempt cl cho (route_plan cl cho shufp cfg st rq)) as [[n1 c]|] eqn:Efa; [|discriminate].
+  cbn [obs_of option_map fst snd] in Eobs. injection Eobs as -> <-.
+  exists n, c. split; [rewrite Er; reflexivity|]. split; [assumption|]. split; [assumption|]. split.
+  - intros d Hp (m & Hm & Ham & Hdm). apply (Hd d Hp).
+    exists (m, spec_owner_shard (c_pool cl m) t). split; [apply in_map_iff; exists m; tauto|]. tauto.
+  - intros nr msb Ep Hhas. destruct Hshard as (r' & Hr' & Hf' & Hs'); [congruence|].
+    apply in_map_iff in Hr'. destruct Hr' as (m & <- & _). cbn [fst snd] in *. subst m.
+    unfold spec_owner_shard in Hs'. rewrite Ep in Hs'. now apply Hs'.
+Qed.
+
+(* C12_tablets, in full: a table with a tablet covering the token *)
+Theorem first_target_tablet cl cfg st values cho shufp k t s rq tb :
+  cho_ok cho -> shuf_ok shufp -> cluster_ok cl -> sorted_weak (c_ring cl) -> keys_ok cl -> tablets_coherent cl ->
+  st_table st = Some k -> Tablets.lookup_tablet (c_tablets cl) k t = Some tb ->
+  PartKey.ps_calculate_token (st_part st) (st_ncols st) (st_wire st) values = Ok (Some t) ->
+  pol_token_aware (ex_pol cfg) = true ->
+  ks_lookup (c_keyspaces cl) (fst k) = Some s ->
+  routing_request st cfg values = Ok rq ->
+  let reps := Tablets.r_all (Tablets.t_reps tb) in
+  (exists r, In r reps /\ usable cl (ex_pol cfg) rq (Tablets.host (fst r)) = true) ->
+  exists n c r,
+    route cl cho shufp cfg st values = Ok (Some (n, c)) /\
+    In r reps /\ Tablets.host (fst r) = n /\ usable cl (ex_pol cfg) rq n = true /\
+    (forall d, pref_dc (eff_pref (ex_pol cfg) rq) = Some d ->
+       (exists r', In r' reps /\ c_alive cl (Tablets.host (fst r')) = true /\
+                   in_dc (c_dcf cl) d (Tablets.host (fst r')) = true) ->
+       in_dc (c_dcf cl) d n = true) /\
+    (pool_sharder (c_pool cl n) <> None ->
+     exists r', In r' reps /\ Tablets.host (fst r') = n /\
+       (pool_has_shard (c_pool cl n) (shard_u16 (snd r')) = true -> conn_shard c = shard_u16 (snd r'))).
+Proof.
+  intros Hc Hsh Hcl Hs Hk Hco Hst Hlt Htok Hta Hks Hrq reps (r0 & Hr0 & Hu0).
+  destruct (route_obs_inv cl cho shufp cfg st values rq Hrq) as [Er Eo].
+  pose proof (route_model_prop cl cfg st values cho shufp _ Hc Hsh Hcl Hs Hk (fun _ => Hco) Eo k t s Hst Htok Hta Hks rq Hrq) as P.
+  cbv zeta in P. rewrite (owners_tablet cl k t s tb Hlt) in P.
+  destruct P as (n & sh & r & Eobs & Hr & Hfst & Hu & Hd & Hshard).
+  { exists (Tablets.host (fst r0), snd r0). split; [|assumption]. apply in_map_iff. exists r0. tauto. }
+  apply in_map_iff in Hr. destruct Hr as (r1 & <- & Hr1). cbn [fst] in Hfst.
+  destruct (first_attempt cl cho (route_plan cl cho shufp cfg st rq)) as [[n1 c]|] eqn:Efa; [|discriminate].
+  cbn [obs_of option_map fst snd] in Eobs. injection Eobs as -> <-.
+  exists n, c, r1. split; [rewrite Er; reflexivity|]. split; [assumption|]. split; [assumption|].
+  split; [assumption|]. split.
+  - intros d Hp (r' & Hr' & Ha' & Hd'). apply (Hd d Hp).
+    exists (Tablets.host (fst r'), snd r'). split; [apply in_map_iff; exists r'; tauto|]. tauto.
+  - intros Hp. destruct (Hshard Hp) as (r' & Hr' & Hf' & Hs').
+    apply in_map_iff in Hr'. destruct Hr' as (r2 & <- & Hr2). cbn [fst snd] in *.
+    exists r2. tauto.
+Qed.
+
+(* tablets take precedence over the ring: the replica source of a table with a tablets entry
+   does not look at the keyspace's strategy or at the ring *)
+Lemma tablets_precedence cl pol rq k tt :
+  Tablets.find_table (c_tablets cl) k = Some tt ->
+  route_source cl pol rq (Some k) =
+  match token_strategy (c_keyspaces cl) pol rq with
+  | Some (t, _) => Some (tablet_source (c_tablets cl) k t)
+  | None => None
+  end.
+Proof. intros H. unfold route_source. destruct (token_strategy _ _ _) as [[t s]|]; [now rewrite H|reflexivity]. Qed.
+
+(* the same token: the request carries the server-side partitioner's token of the bound key *)
+Lemma routing_request_token st cfg values :
+  st_wire st <> [] -> PartKey_proofs.key_ok (st_ncols st) (st_wire st) values ->
+  (List.length (st_wire st) = 1%nat \/
+   Forall PartKey_proofs.fits (PartKey.spec_components (st_wire st) values)) ->
+  (Z.of_nat (List.length (PartKey.spec_serialized_key (PartKey.spec_components (st_wire st) values))) < 2 ^ 63)%Z ->
+  exists rq, routing_request st cfg values = Ok rq /\
+             rq_token rq = Some (PartKey.spec_token (st_part st) (st_wire st) values) /\
+             rq_ks rq = option_map fst (st_table st).
+Proof.
+  intros H1 H2 H3 H4. unfold routing_request.
+  rewrite (PartKey_proofs.ps_calculate_token_spec (st_part st) _ _ _ H1 H2 H3 H4).
+  eexists. split; [reflexivity|]. split; reflexivity.
+Qed.
+
+(* the pool part of C12_shard, for every history of the refiller *)
+Theorem pool_shard_bound size evs cho shard :
+  Forall event_ok evs -> cho_ok cho ->
+  let p := rf_view (pool_run size evs) in
+  pool_wf p /\
+  (p <> PoolDown ->
+   exists c, connection_for_shard cho p shard = Some c /\ In c (pool_conns p) /\
+     (pool_sharder p <> None -> pool_has_shard p (shard_u16 shard) = true -> conn_shard c = shard_u16 shard)).
+Proof.
+  intros Hev Hc p. assert (Hwf : pool_wf p) by (apply rf_view_wf, pool_run_wf, Hev).
+  split; [assumption|]. intros Hnd. now apply connection_for_shard_spec.
+Qed.
+
+Lemma shard_u16_small nr msb t : (0 < nr <= 65536)%N -> shard_u16 (spec_shard_of nr msb t) = spec_shard_of nr msb t.
+Proof.
+  intros H. unfold shard_u16. rewrite <- shard_of_spec.
+  pose proof (shard_of_lt nr msb t (proj1 H)). destruct (N.leb_spec (shard_of nr msb t) 65535); [reflexivity|lia].
+Qed.
+
+(* the tablets state a ClusterState can be in (payloads resolved against the known nodes, every
+   refresh deriving removed / recreated nodes) is coherent with the nodes' datacenters *)
+Lemma tablets_reachable_coherent cl known0 h :
+  Forall Tablets.op_i64 (Tablets.cluster_ops known0 h) ->
+  Tablets.run (Tablets.cluster_ops known0 h) = Some (c_tablets cl) ->
+  (forall nd, In nd (Tablets.cluster_known known0 h) -> Tablets.ndc nd = c_dcf cl (Tablets.host nd)) ->
+  tablets_coherent cl.
+Proof.
+  intros Hi Hr Hn. split.
+  - intros k tok dc. exact (Tablets_proofs.lookup_dc_restrict _ _ k tok dc Hi Hr).
+  - intros k tok l r Hl Hin. apply Hn.
+    unfold Tablets.lookup in Hl. destruct (Tablets.lookup_tablet (c_tablets cl) k tok) as [t|] eqn:Et; [|discriminate].
+    injection Hl as <-.
+    exact (Tablets_proofs.cluster_no_stale_nodes known0 h _ k tok t r Hi Hr Et Hin).
+Qed.
+
+(* ====================================================================================== *)
+(* 5. on ring tables the generalised plan IS the plan of C05 (Model/Plan.v)                 *)
+(* ====================================================================================== *)
+Lemma filter_map_comm {A B} (f : A -> B) (p : B -> bool) l :
+  filter p (map f l) = map f (filter (fun x => p (f x)) l).
+Proof. induction l as [|x l IH]; [reflexivity|]. cbn. destruct (p (f x)); cbn; now rewrite IH. Qed.
+
+Section RingEquiv.
+  Variables (cl : cluster) (pol : policy) (rq : request) (t : Z) (s : strategy).
+  Variables (cho : nat -> nat -> nat) (shufp : nat -> list sreplica -> list sreplica).
+  Hypothesis Hs : sorted_weak (c_ring cl).
+  Hypothesis Hk : nts_keys_ok s.
+  Hypothesis Hshuf : shuf_ok shufp.
+
+  Let dcf := c_dcf cl.
+  Let rackf := c_rackf cl.
+  Let g := c_ring cl.
+  Let kss := c_keyspaces cl.
+  Let en := c_enabled cl.
+  Let co := c_connected cl.
+  Definition ring_shf (n : N) : N := computed_shard (c_pool cl n) t.
+  Let sh (n : N) : sreplica := (n, ring_shf n).
+  (* the node-level shuffle a (node, shard)-level shuffle induces *)
+  Definition node_shuf (site : nat) (l : list N) : list N := map fst (shufp site (map sh l)).
+
+  Lemma node_shuf_perm site l : Permutation (node_shuf site l) l.
+  Proof.
+    unfold node_shuf. replace l with (map fst (map sh l)) at 2.
+    - apply Permutation_map, Hshuf.
+    - rewrite map_map. cbn. apply map_id.
+  Qed.
+
+  Lemma shufp_lift site l : shufp site (map sh l) = map sh (node_shuf site l).
+  Proof.
+    unfold node_shuf. rewrite map_map.
+    assert (H : forall x, In x (shufp site (map sh l)) -> sh (fst x) = x).
+    { intros x Hx. apply (Permutation_in _ (Hshuf site (map sh l))) in Hx.
+      apply in_map_iff in Hx. destruct Hx as (n & <- & _). reflexivity. }
+    induction (shufp site (map sh l)) as [|x r IH]; [reflexivity|].
+    cbn [map]. rewrite H by now left. f_equal. apply IH. intros y Hy. apply H. now right.
+  Qed.
+
+  Lemma ring_iter_eq c :
+    src_iter (ring_source cl t s) c = map sh (reps_iter dcf rackf g kss t s c).
+  Proof.
+    cbn [ring_source src_iter]. unfold reps_iter, rset_for. f_equal.
+    apply precomputed_any. exact Hs.
+  Qed.
+
+  Lemma ring_ordered_eq c :
+    src_ordered (ring_source cl t s) c = map sh (reps_ordered dcf rackf g kss t s c).
+  Proof.
+    cbn [ring_source src_ordered]. unfold reps_ordered, rset_for. f_equal.
+    rewrite !ordered_view by assumption. cbn [fst].
+    now rewrite (precomputed_any (c_dcf cl) (c_rackf cl) (c_ring cl) (c_pre cl) (pre kss) t s (crit_dc c) Hs).
+  Qed.
+
+  Lemma ring_filtered_eq c det :
+    g_filtered rackf en co (ring_source cl t s) c det =
+    map sh (filtered_replicas dcf rackf g kss t s c (alive en co) det).
+  Proof.
+    unfold g_filtered, filtered_replicas. destruct det.
+    - rewrite ring_ordered_eq, filter_map_comm. reflexivity.
+    - rewrite ring_iter_eq, filter_map_comm. reflexivity.
+  Qed.
+
+  Lemma ring_shuffled_eq site c :
+    g_maybe_shuffled rackf en co rq shufp site (ring_source cl t s) c =
+    map sh (maybe_shuffled dcf rackf g kss en co rq node_shuf site t s c).
+  Proof.
+    unfold g_maybe_shuffled, maybe_shuffled. destruct (rq_lwt rq).
+    - apply ring_filtered_eq.
+    - rewrite ring_filtered_eq. apply shufp_lift.
+  Qed.
+
+  Hypothesis Hts : token_strategy kss pol rq = Some (t, s).
+
+  Lemma ring_fb_replicas_eq :
+    g_fb_replicas rackf en co pol rq (Some (ring_source cl t s)) shufp =
+    fb_replicas dcf rackf g kss en co ring_shf pol rq node_shuf.
+  Proof.
+    unfold g_fb_replicas, fb_replicas. rewrite Hts.
+    assert (G : forall l, map to_target (map sh l) = map (fun n => (n, Some (ring_shf n))) l)
+      by (intros l; rewrite map_map; reflexivity).
+    rewrite <- G. f_equal. rewrite !map_app. f_equal; [|f_equal].
+    - destruct (crit_rack pol rq); [apply ring_shuffled_eq|reflexivity].
+    - destruct (crit_local pol rq); [apply ring_shuffled_eq|reflexivity].
+    - destruct (remote_allowed pol rq); [apply ring_shuffled_eq|reflexivity].
+  Qed.
+
+  Definition lift_picked (p : picked) : gpicked :=
+    match p with Computed n => GComputed (sh n) | ToBeComputedInFallback => GToBeComputedInFallback end.
+
+  Lemma ring_pick_replica_eq site c :
+    g_pick_replica rackf en co rq cho site (ring_source cl t s) c =
+    option_map lift_picked (pick_replica dcf rackf g kss en co rq cho site t s c).
+  Proof.
+    unfold g_pick_replica, pick_replica. destruct (rq_lwt rq).
+    - destruct c as [|d|d r].
+      + rewrite ring_ordered_eq. destruct (reps_ordered dcf rackf g kss t s CAny) as [|p rest]; [reflexivity|].
+        cbn [map sh fst]. destruct (alive en co p); reflexivity.
+      + rewrite ring_filtered_eq. destruct (filtered_replicas _ _ _ _ _ _ _ _ true); reflexivity.
+      + rewrite ring_filtered_eq. destruct (filtered_replicas _ _ _ _ _ _ _ _ true); reflexivity.
+    - rewrite ring_iter_eq, map_length, nth_error_map.
+      destruct (nth_error (reps_iter dcf rackf g kss t s c) _) as [happy|]; [|reflexivity].
+      cbn [option_map]. unfold sr_ok. cbn [sh fst].
+      destruct (alive en co happy && crit_ok rackf c happy); [reflexivity|].
+      rewrite ring_filtered_eq, map_length, nth_error_map. unfold filtered_replicas.
+      destruct (nth_error _ _); reflexivity.
+  Qed.
+
+  Lemma ring_first_picked_eq l k :
+    g_first_picked (map (option_map lift_picked) l) k = first_picked ring_shf l k.
+  Proof.
+    induction l as [|[[n|]|] l IH]; cbn [map option_map lift_picked g_first_picked first_picked]; auto.
+  Qed.
+
+  Lemma ring_pick_eq :
+    g_pick dcf rackf g en co pol rq (Some (ring_source cl t s)) cho =
+    pick dcf rackf g kss en co ring_shf pol rq cho.
+  Proof.
+    unfold g_pick, pick. rewrite Hts. rewrite <- ring_first_picked_eq. f_equal.
+    unfold g_replica_steps, replica_steps. cbn [map].
+    repeat f_equal.
+    - destruct (crit_rack pol rq); [apply ring_pick_replica_eq|reflexivity].
+    - destruct (crit_local pol rq); [apply ring_pick_replica_eq|reflexivity].
+    - destruct (remote_allowed pol rq); [apply ring_pick_replica_eq|reflexivity].
+  Qed.
+
+  (* every plan of the generalised model on a ring table is a plan of the C05 model, with the
+     induced node-level shuffle: all theorems of C05 apply to it *)
+  Theorem ring_plan_eq :
+    g_plan dcf rackf g en co pol rq (Some (ring_source cl t s)) cho shufp =
+    plan dcf rackf g kss en co ring_shf pol rq cho node_shuf.
+  Proof.
+    unfold g_plan, plan, g_fallback, fallback. rewrite ring_pick_eq, ring_fb_replicas_eq. reflexivity.
+  Qed.
+End RingEquiv.
+
+Theorem route_plan_ring cl cfg st rq cho shufp k t s :
+  sorted_weak (c_ring cl) -> keys_ok cl -> shuf_ok shufp ->
+  st_table st = Some k -> Tablets.find_table (c_tablets cl) k = None ->
+  token_strategy (c_keyspaces cl) (ex_pol cfg) rq = Some (t, s) ->
+  route_plan cl cho shufp cfg st rq =
+  plan (c_dcf cl) (c_rackf cl) (c_ring cl) (c_keyspaces cl) (c_enabled cl) (c_connected cl)
+       (ring_shf cl t) (ex_pol cfg) rq cho (node_shuf cl t shufp) /\
+  (forall site l, Permutation (node_shuf cl t shufp site l) l).
+Proof.
+  intros Hs Hk Hsh Hst Hft Hts. split; [|intros site l; now apply node_shuf_perm].
+  unfold route_plan, route_source. rewrite Hts, Hst, Hft.
+  apply ring_plan_eq; try assumption.
+  unfold token_strategy in Hts. destruct (pol_token_aware (ex_pol cfg)); [|discriminate].
+  destruct (rq_token rq); [|discriminate]. destruct (rq_ks rq) as [ks|]; [|discriminate].
+  destruct (ks_lookup (c_keyspaces cl) ks) eqn:E; [|discriminate]. injection Hts as _ <-. exact (Hk _ _ E).
+Qed.
+
+(* ... in particular C05_plan_properties: the plan a ring-table request is executed over is
+   duplicate-free, names only enabled nodes, only preferred-datacenter nodes without failover,
+   every other enabled node, in group order, deterministic replica order for LWT *)
+Theorem route_plan_c05 cl cfg st rq cho shufp k t s :
+  sorted_weak (c_ring cl) -> keys_ok cl -> shuf_ok shufp -> cho_ok cho ->
+  st_table st = Some k -> Tablets.find_table (c_tablets cl) k = None ->
+  token_strategy (c_keyspaces cl) (ex_pol cfg) rq = Some (t, s) ->
+  let p := map fst (route_plan cl cho shufp cfg st rq) in
+  P_nodup p /\ P_filter (c_enabled cl) p /\ P_locality (c_dcf cl) (ex_pol cfg) rq p /\
+  P_complete (c_dcf cl) (c_ring cl) (c_enabled cl) (ex_pol cfg) rq p /\
+  P_order (c_dcf cl) (c_rackf cl) (c_ring cl) (c_keyspaces cl) (c_enabled cl) (c_connected cl) (ex_pol cfg) rq p /\
+  P_lwt (c_dcf cl) (c_rackf cl) (c_ring cl) (c_keyspaces cl) (c_enabled cl) (c_connected cl) (ex_pol cfg) rq p.
+Proof.
+  intros Hs Hk Hsh Hc Hst Hft Hts.
+  destruct (route_plan_ring cl cfg st rq cho shufp k t s Hs Hk Hsh Hst Hft Hts) as [-> Hp].
+  exact (plan_properties (c_dcf cl) (c_rackf cl) (c_ring cl) (c_keyspaces cl) (c_enabled cl) (c_connected cl)
+           (ring_shf cl t) (ex_pol cfg) rq Hs Hk cho (node_shuf cl t shufp) Hp Hc).
 Qed.
